@@ -377,9 +377,8 @@ bool Xml::Private::parseElement(Element& element)
           return false;
         continue;
       }
-      else
-        this->pos = pos;
     }
+    this->pos = pos; // not a tag: read the text from where the look-ahead started, whether it produced a token or not
     String string;
     if(!parseText(string))
       return false;
